@@ -75,8 +75,9 @@ def plan_c07(ctx):
     res = o.run_workers(ctx, jobs)
     o.handle_deaths(ctx, res)
     builds = ["release+overflow-checks+debug-assertions"]
-    if thorough:
-        # the same execution set again under a plain release build and a plain debug build
+    if True:
+        # the same kind of execution set again under a plain release build and a plain debug build
+        # (quick: an eighth of the budget each; thorough: half / the quick budget)
         for profile, binpath in (("plain", os.path.join(ctx.verif, "target", "plain", "tzsim")), ("dev", os.path.join(ctx.verif, "target", "debug", "tzsim"))):
             rc, out = o.sh(["cargo", "build", "--offline", "--profile", profile], cwd=os.path.join(ctx.verif, "tzsim"))
             if rc != 0:
@@ -84,9 +85,12 @@ def plan_c07(ctx):
                 continue
             saved = ctx.tzsim
             ctx.tzsim = binpath
-            n = o.BUDGET["C07"]["quick"] if profile == "dev" else o.BUDGET["C07"][ctx.tier] // 2
+            if thorough:
+                n = o.BUDGET["C07"]["quick"] if profile == "dev" else o.BUDGET["C07"][ctx.tier] // 2
+            else:
+                n = o.BUDGET["C07"]["quick"] // (24 if profile == "dev" else 8)
             jobs = o.plan_run_jobs(ctx, "C07", n, tag=profile + "-")
-            jobs += o.plan_sweep_jobs(ctx, "trunc", 250 if profile == "dev" else 1000, 300, prop="C07")
+            jobs += o.plan_sweep_jobs(ctx, "trunc", (250 if profile == "dev" else 1000) if thorough else (40 if profile == "dev" else 150), 300 if thorough else 60, prop="C07", tag=profile + "-")
             res = o.run_workers(ctx, jobs)
             o.handle_deaths(ctx, res)
             ctx.tzsim = saved
